@@ -489,6 +489,84 @@ def check_export(model, rep):
     rep.require('C18.export', 5)
 
 
+def check_export_files(model, rep, R='C18.export'):
+    """one file per element: the name of the file is the element's name (unique in a powertrain, C20) with at most a constant
+    suffix appended - any other rewriting of the path (splitext, replace, slicing, lower ...) can send two elements to the same
+    file, and the history of the one written first is then in no exported file"""
+    mod, fn = model.functions['export_time_variables']
+    writes = [x for x in ast.walk(fn) if isinstance(x, ast.Call) and isinstance(x.func, ast.Attribute) and x.func.attr == 'to_csv']
+    params = {a.arg for a in fn.args.args}
+    ok, why, line = True, '', fn.lineno
+    if len(writes) != 1 or not writes[0].args and not any(k.arg in ('path_or_buf',) for k in writes[0].keywords):
+        ok, why = False, f'{len(writes)} to_csv calls with a path argument (exactly one specified)'
+    else:
+        arg = writes[0].args[0] if writes[0].args else [k.value for k in writes[0].keywords if k.arg == 'path_or_buf'][0]
+        line = writes[0].lineno
+
+        def path_like(e, var):
+            """var, var + 'const', f'{var}const'"""
+            if isinstance(e, ast.Name) and e.id == var:
+                return True
+            if isinstance(e, ast.IfExp):
+                return path_like(e.body, var) and path_like(e.orelse, var)
+            if isinstance(e, ast.BinOp) and isinstance(e.op, ast.Add) and path_like(e.left, var) and isinstance(e.right, ast.Constant) \
+                    and isinstance(e.right.value, str):
+                return True
+            if isinstance(e, ast.JoinedStr) and e.values and isinstance(e.values[0], ast.FormattedValue) and path_like(e.values[0].value, var) \
+                    and e.values[0].conversion == -1 and e.values[0].format_spec is None \
+                    and all(isinstance(v, ast.Constant) for v in e.values[1:]):
+                return True
+            return False
+        var = next((n.id for n in ast.walk(arg) if isinstance(n, ast.Name)), None)
+        if var is None or not path_like(arg, var):
+            ok, why = False, f'the file written is `{ast.unparse(arg)[:60]}`, not the given path with a constant suffix'
+        else:
+            # every binding of the path variable on the way: the parameter itself, then only constant suffixes
+            src = var
+            seen_vars = {var}
+            for _ in range(4):
+                for x in ast.walk(fn):
+                    tg = None
+                    if isinstance(x, ast.Assign) and len(x.targets) == 1 and isinstance(x.targets[0], ast.Name) and x.targets[0].id == src:
+                        tg, val = x.targets[0], x.value
+                        if not any(path_like(val, v) for v in params | seen_vars):
+                            ok, why, line = False, f'the path is rewritten by `{ast.unparse(x)[:70]}`', x.lineno
+                        else:
+                            seen_vars |= {n.id for n in ast.walk(val) if isinstance(n, ast.Name)}
+                    elif isinstance(x, ast.AugAssign) and isinstance(x.target, ast.Name) and x.target.id == src:
+                        if not (isinstance(x.op, ast.Add) and isinstance(x.value, ast.Constant) and isinstance(x.value.value, str)):
+                            ok, why, line = False, f'the path is rewritten by `{ast.unparse(x)[:70]}`', x.lineno
+            if ok and not (seen_vars & params):
+                ok, why = False, f'the file written (`{var}`) does not derive from a parameter of the function'
+    rep.decide(ok, R, 'export_time_variables:file', why + ': two element names can then share a file and one history is lost' if why else '',
+               loc=f'{mod}:{line}', detail='the file written is the given path, with at most a constant suffix appended')
+    # the caller: one call per element, path = join(folder, <element>.name)
+    m = model.member('Powertrain', 'export_time_variables')
+    calls = [x for x in ast.walk(m.node) if isinstance(x, ast.Call) and isinstance(x.func, ast.Name) and x.func.id == 'export_time_variables']
+    ok2, why2, line2 = True, '', m.node.lineno
+    if not calls:
+        ok2, why2 = False, 'no call of the export function'
+    for c in calls:
+        line2 = c.lineno
+        fp = next((k.value for k in c.keywords if k.arg == 'file_path'), c.args[1] if len(c.args) > 1 else None)
+        names = [n for n in ast.walk(fp) if isinstance(n, ast.Attribute) and n.attr == 'name'] if fp is not None else []
+        parents = {id(ch): p for p in ast.walk(fp) for ch in ast.iter_child_nodes(p)} if fp is not None else {}
+        good = False
+        for n in names:
+            p_ = parents.get(id(n))
+            # the name must enter the path as it is: an argument of os.path.join, an operand of + or /, an f-string field
+            if isinstance(p_, ast.Call) and n in p_.args and ast.unparse(p_.func).endswith(('join', 'Path', 'joinpath')):
+                good = True
+            if isinstance(p_, ast.BinOp) and isinstance(p_.op, (ast.Add, ast.Div)):
+                good = True
+            if isinstance(p_, ast.FormattedValue) and p_.format_spec is None and p_.conversion == -1:
+                good = True
+        if not good:
+            ok2, why2 = False, f'the path `{ast.unparse(fp)[:60] if fp is not None else None}` does not contain the element\'s name unchanged'
+    rep.decide(ok2, R, 'Powertrain.export_time_variables:file', why2, loc=f'{m.module}:{line2}',
+               detail='each element is exported to <folder>/<element name>')
+
+
 def check(model, rep):
     rep.explain('C18: Powertrain.snapshot is unrolled statically (constant zip lists, guarded work lists) into its column '
                 'writes; each write must be control-dependent on the membership test of its own variable only, use that variable\'s '
@@ -498,4 +576,5 @@ def check(model, rep):
                 'parameter to the same-named keyword. Numeric interpolation is not decided.')
     check_snapshot(model, rep)
     check_export(model, rep)
+    check_export_files(model, rep)
     rep.assume('every recorded list has one sample per instant (C17)')
